@@ -31,6 +31,12 @@ Fixpoint close (fuel : nat) (succ : nat -> list nat) (st : list nat * list nat) 
 Definition to_json_objects (fuel : nat) (succ : nat -> list nat) (roots : list nat) : list nat * list nat :=
   close fuel succ (roots, roots).
 
+(* can_view: to_json refuses (PermissionError) as soon as an instance of the data section, or one reached through an included
+   attribute, may not be viewed by the current user; otherwise it ships exactly the instances of the worklist *)
+Definition to_json_checked (fuel : nat) (succ : nat -> list nat) (roots : list nat) (viewable : nat -> bool) : result (list nat) :=
+  let shipped := snd (to_json_objects fuel succ roots) in
+  if forallb viewable shipped then Ok shipped else Err 5%nat.
+
 Definition section_eqb (a b : section) : bool :=
   match a, b with SData, SData | SObjects, SObjects | SSchema, SSchema | SSchemaHash, SSchemaHash => true | _, _ => false end.
 Fixpoint sections_eqb (a b : list section) : bool :=
